@@ -158,6 +158,13 @@ fn check_with_faults(h: &History, kf: &KnownFindings, st: &mut Stats, enumerate_
     if !enumerate_faults {
         return Ok(());
     }
+    // every fault variant re-runs the whole history: histories with long silences (judged above without
+    // faults) are not multiplied by the fault positions
+    let silent: usize = h.steps.iter().map(|s| if let Step::Silence(n) = s { *n as usize } else { 0 }).sum();
+    if silent > 30 {
+        st.class("long-silence-base-only");
+        return Ok(());
+    }
     // radio interactions per step (transactions only)
     let mut per_step: Vec<(usize, usize)> = vec![];
     for (i, s) in h.steps.iter().enumerate() {
@@ -167,15 +174,21 @@ fn check_with_faults(h: &History, kf: &KnownFindings, st: &mut Stats, enumerate_
         }
     }
     for (i, calls) in per_step {
-        for k in 0..calls {
+        for kk in 0..calls * 3 {
+            // single faults at every position, then a radio that stays broken for two and for three
+            // consecutive interactions from every position
+            let (k, extra) = (kk % calls, kk / calls);
             let mut hv = h.clone();
             if let Step::Send { rx, .. } = &mut hv.steps[i] {
-                rx.fault_at = Some(k as u8);
+                rx.fault_at = Some((k as u8 & 0x3F) | ((extra as u8) << 6));
             }
             let (_, recs) = run_history(&hv).map_err(|e| Failure::new("harness", hv.json(), e))?;
             let injected = recs.iter().any(|r| r.trace.iter().any(|e| matches!(e, Ev::Fault(_))));
             if !injected {
-                break; // k beyond the number of interactions of this transaction
+                if extra == 2 {
+                    break;
+                }
+                continue; // k beyond the number of interactions of this transaction
             }
             st.eval();
             st.class("fault-variant");
